@@ -20,6 +20,9 @@ The space is cut into sub-universes, each enumerated completely:
   U3    forests  = 5 nodes, names only     x  all three-level queries over {literal, None}
   UD    chains 60 deep (40 through the nginx parser), with and without a leaf beside every nested node
                                            x  all one- to four-level name queries
+  UI    two or three documents with 2..4 sections in all, one leaf (or leaf with a child) per section; the queried
+        Result gathers the sections in EVERY order, so nodes of different documents interleave
+                                           x  select / find / [] / chained select, deep on/off, roots on/off
   UEP   forests <= 3 nodes                 x  every entry point (select, find, find_all, [], chained select,
                                               chained [], where) on Entry, from_dict, a real ConfigParser (nginx)
                                               document and a Result over several documents; two-step histories
@@ -79,7 +82,7 @@ VALUES = ["a", "b", "A", "x", "Y", 1, "ab", "", 0]      # names and attributes, 
 
 BOUNDS = {
     "quick": {"max_nodes": 4, "three_level_nodes": 5, "max_depth": 3, "deep_chain_depth": 60, "levels": 3,
-              "predicate_depth": 2, "predicate_depth_mixed_case_spine": 3, "predicate_atoms": 9, "node_values": 9,
+              "predicate_depth": 2, "predicate_depth_mixed_case_spine": 3, "predicate_atoms": 8, "node_values": 9,
               "labels_full": 15, "labels_reduced": 6, "labels_falsy": 12, "history_steps": 3},
     "thorough": {"max_nodes": 5, "three_level_nodes": 5, "max_depth": 3, "deep_chain_depth": 60, "levels": 3,
                  "predicate_depth": 2, "predicate_depth_mixed_case_spine": 3, "predicate_atoms": 16, "node_values": 9,
@@ -92,9 +95,9 @@ def P(f, a=None):
     return ["p", f, a]
 
 
-Q_ATOMS = [P("eq", "a"), P("eq", 1), P("ieq", "A"), P("startswith", "a"), P("istartswith", "X"),
+Q_ATOMS = [P("eq", "a"), P("eq", 1), P("ieq", "A"), P("istartswith", "X"),
            P("isin", ["b", "x", 1]), P("matches", "[aY]"), P("lt", 2), P("raise")]
-T_ATOMS = Q_ATOMS + [P("eq", "x"), P("ieq", "y"), P("contains", "Y"), P("gt", 0), P("endswith", "x"),
+T_ATOMS = Q_ATOMS + [P("startswith", "a"), P("eq", "x"), P("ieq", "y"), P("contains", "Y"), P("gt", 0), P("endswith", "x"),
                      P("icontains", "A"), P("iendswith", "Y")]
 
 
@@ -230,15 +233,15 @@ def lq_med(tier):
            ["tuple", nq_lit("a"), ["lit", "x"]], ["tuple", NONE, ["lit", 1]],
            ["tuple", nq_lit("b"), ["lit", "x"], ["lit", 1]],
            ["name", ["bool", ["not", P("eq", "a")]]],
-           ["name", ["fn", "raise"]],
            ["tuple", NONE, ["bool", P("lt", 2)]],
            ["tuple", NONE, ["bool", ["not", P("ieq", "A")]]],
-           ["entry", ["all", ["bool", P("isin", ["b", "x", 1])]]],
            ["tuple", NONE, ["entry", ["not", ["any", ["lit", 1]]]]],
            ["tuple", NONE, ["fn", "raise"], ["bool", P("matches", "[aY]")]],
            ["tuple", NONE, ["fn", "str_x"]]]
     if tier == "thorough":
         out += [["name", nq_lit("A")],
+                ["name", ["fn", "raise"]],
+                ["entry", ["all", ["bool", P("isin", ["b", "x", 1])]]],
                 ["name", ["bool", ["or", P("startswith", "a"), P("lt", 2)]]],
                 ["tuple", NONE, ["bool", ["not", P("eq", "x")]]],
                 ["tuple", nq_lit("a"), ["bool", P("istartswith", "X")]],
@@ -560,7 +563,7 @@ class Ctx(object):
                  "snapshot")
 
 
-def build_ctx(forest, build):
+def build_ctx(forest, build, order=None):
     Q = _q()
     c = Ctx()
     c.build = build
@@ -576,6 +579,13 @@ def build_ctx(forest, build):
     elif build == "multi":
         tops = [mk(t) for t in forest]          # parentless: each top-level tree is its own document
         c.X = Q.Result(children=tops)
+        c.doc = None
+        c.has_container = False
+    elif build == "inter":
+        # several parentless documents; the queried Result gathers their second-level nodes (sections) in the
+        # order given by the case: `order` lists pre-order numbers, so nodes of different documents interleave
+        tops = [mk(t) for t in forest]
+        c.X = None
         c.doc = None
         c.has_container = False
     elif build == "from_dict":
@@ -615,6 +625,9 @@ def build_ctx(forest, build):
     if c.has_container:
         c.idmap[id(c.doc)] = M.DOC
         c.start = list(c.tree.tops)
+    elif build == "inter":
+        c.X = Q.Result(children=[c.objs[i] for i in order])
+        c.start = [k for i in order for k in c.tree.kids[i]]
     else:
         c.start = [k for t in c.tree.tops for k in c.tree.kids[t]]
     c.start_objs = [c.objs[i] for i in c.start]
@@ -658,7 +671,7 @@ def model_select(ctx, start, levels, deep, roots, defect=False, order="doc"):
     sat = _sat(ctx, levels, defect)
     path, trace = M.select_levelwise(ctx.tree, start, sat, len(levels), deep)
     doc2, path2 = M.select_pathwise(ctx.tree, start, sat, len(levels), deep)
-    if path != path2 or M.doc_order(path) != doc2:
+    if path != path2 or M.doc_order(ctx.tree, start, path) != doc2:
         raise RuntimeError("reference formulations disagree: %r vs %r / %r on %s"
                            % (path, path2, doc2, canon_json([ctx.forest, levels, deep])))
     res = doc2 if order == "doc" else path
@@ -848,7 +861,7 @@ def check_case(case):
     if kind == "bool":
         return check_bool(case["pred"], case["value"])[0]
     if kind == "select":
-        ctx = build_ctx(case["forest"], case["build"])
+        ctx = build_ctx(case["forest"], case["build"], case.get("order"))
         if ctx is None:
             return []
         return eval_case(ctx, case)[0]
@@ -902,12 +915,15 @@ def units(tier, seed):
             for fi in range(fshards):
                 us.append({"u": name, "qs": [qi, qshards], "fs": [fi, fshards]})
     # entry points
-    n = 16 if tier == "quick" else 40
+    n = 16 if tier == "quick" else 36
     for build in ("entry", "multi", "nginx", "from_dict"):
         for i in range(n):
             us.append({"u": "UEP", "build": build, "fs": [i, n]})
     for build in ("entry", "multi", "nginx"):
         us.append({"u": "UD", "build": build})
+    n = 8 if tier == "quick" else 12
+    for i in range(n):
+        us.append({"u": "UI", "fs": [i, n]})
     return us
 
 
@@ -1032,7 +1048,7 @@ def run_bulk_unit(unit, tier, res):
                         # the un-rooted expectation is shared by the two `roots` values of one `deep`
                         path, trace = levelwise(tree, ctx.start, sat, nl, deep)
                         base, path2 = pathwise(tree, ctx.start, sat, nl, deep)
-                        if path != path2 or sorted(path) != base:
+                        if path != path2 or sorted(path) != base:        # bulk start lists are in ascending pre-order
                             raise RuntimeError("reference formulations disagree on %s" % canon_json([f, levels, deep, build]))
                         last_deep = deep
                         matched = sum(t[1] for t in trace)
@@ -1147,7 +1163,8 @@ def ep_cases(tier, build):
                 out.append({"ep": "find", "levels": [l1, l2], "deep": True, "roots": roots})
     if build in ("entry", "multi", "nginx"):
         for pre in pres:
-            for l in two + [["tuple", nq_lit("b"), ["lit", "x"], ["bool", P("lt", 2)]], ["tuple", NONE, ["fn", "str_x"]]]:
+            chain_levels = two if tier == "thorough" else two[:2]
+            for l in chain_levels + [["tuple", nq_lit("b"), ["lit", "x"], ["bool", P("lt", 2)]], ["tuple", NONE, ["fn", "str_x"]]]:
                 for deep, roots in OPTS:
                     out.append({"ep": "chain", "pre": pre, "levels": [l], "deep": deep, "roots": roots})
                 out.append({"ep": "chain_getitem", "pre": pre, "levels": [l], "deep": False, "roots": False})
@@ -1275,6 +1292,73 @@ def run_deep_unit(unit, tier, res):
     res.maxi("max_depth_UD_%s" % build, DEEP_CHAIN[build])
 
 
+LEAVES = [["a", [], []], ["b", [], []], ["b", [], [["a", [], []]]]]
+
+
+def inter_forests(tier):
+    """Two or three documents with 2..4 sections in all; under every section one of LEAVES (quick: the two plain
+    leaves when there are four sections).  Yields (forest, pre-order numbers of the sections)."""
+    dists = [(1, 1), (1, 2), (2, 1), (1, 1, 1), (2, 2), (1, 3), (3, 1), (1, 1, 2), (1, 2, 1), (2, 1, 1)]
+    for dist in dists:
+        nsec = sum(dist)
+        opts = LEAVES[:2] if (tier == "quick" and nsec == 4) else LEAVES
+        for pick in itertools.product(range(len(opts)), repeat=nsec):
+            it = iter(pick)
+            forest = [["a", [], [["a", [], [opts[next(it)]]] for _ in range(n)]] for n in dist]
+            tree = M.Tree(forest)
+            yield forest, [k for t in tree.tops for k in tree.kids[t]]
+
+
+def inter_cases():
+    a, none = ["name", nq_lit("a")], ["name", NONE]
+    out = []
+    for l in (a, none):
+        for deep, roots in OPTS:
+            out.append({"ep": "select", "levels": [l], "deep": deep, "roots": roots})
+    for deep in (False, True):
+        out.append({"ep": "select", "levels": [none, a], "deep": deep, "roots": True})
+        out.append({"ep": "chain", "pre": [none], "levels": [a], "deep": deep, "roots": True})
+    for roots in (False, True):
+        out.append({"ep": "find", "levels": [a], "deep": True, "roots": roots})
+    out.append({"ep": "find", "levels": [none, a], "deep": True, "roots": True})
+    out.append({"ep": "getitem", "levels": [a], "deep": False, "roots": False})
+    return out
+
+
+def run_inter_unit(unit, tier, res):
+    """UI: a Result whose children interleave the sections of two or three documents in EVERY order."""
+    protos = inter_cases()
+    n = 0
+    split = 0
+    for (f, secs) in enumx.shard(inter_forests(tier), unit["fs"][0], unit["fs"][1]):
+        for order in itertools.permutations(secs):
+            ctx = build_ctx(f, "inter", list(order))
+            for proto in protos:
+                case = dict(proto)
+                case.update({"kind": "select", "forest": f, "build": "inter", "order": list(order)})
+                vio, exp = eval_case(ctx, case)
+                n += 1
+                if case["roots"]:
+                    # non-trivial: the results of one document are not contiguous, so adjacent-only
+                    # de-duplication and first-occurrence de-duplication differ
+                    raw = expected_for(ctx, dict(case, roots=False))
+                    tops = [ctx.tree.top[r] for r in raw]
+                    runs = sum(1 for i, t in enumerate(tops) if i == 0 or tops[i - 1] != t)
+                    if runs > len(set(tops)):
+                        res.nontrivial += 1
+                        split += 1
+                res.outcomes.add("UI:%s:%d%d:%d:%d" % (case["ep"], case["deep"], case["roots"], len(case["levels"]), min(len(exp), 4)))
+                for (cl, e, o, ft) in vio:
+                    res.violation(cl, case, e, o, ft)
+                    if cl == CLAUSE_T:
+                        ctx = build_ctx(f, "inter", list(order))
+                if n == 11:
+                    res.samples.append(case)
+    res.evals += n
+    res.stat("cases_UI", n)
+    res.stat("cases_UI_roots_with_noncontiguous_documents", split)
+
+
 def _strip(tree):
     return [[tree.name[i], list(tree.attrs[i]), tree.parent[i]] for i in range(tree.n)]
 
@@ -1291,6 +1375,8 @@ def run_unit(unit, tier):
         run_ep_unit(unit, tier, res)
     elif unit["u"] == "UD":
         run_deep_unit(unit, tier, res)
+    elif unit["u"] == "UI":
+        run_inter_unit(unit, tier, res)
     else:
         run_bulk_unit(unit, tier, res)
     return res
